@@ -65,10 +65,10 @@ def dictattrNames : List String := ["relabel", "rename"]
 /-- public methods added by `Dict` (src/pyg_base/_dict.py:16-170) -/
 def dictNames1 : List String := ["apply", "do", "if_none", "if_else"]
 
-/-- `k` is an attribute of the class (1 = `Dict`, otherwise `dictattr` or a bare subclass of it): normal attribute
+/-- `k` is an attribute of the class (1 = `Dict`, 4 = a subclass of `Dict`, otherwise `dictattr` or a bare subclass of it): normal attribute
 lookup finds it and `__getattr__` is never called -/
 def shadowed (cls : Nat) (k : String) : Bool :=
-  dictNames.contains k || dictattrNames.contains k || (cls == 1 && dictNames1.contains k)
+  dictNames.contains k || dictattrNames.contains k || (isDictLike cls && dictNames1.contains k)
 
 variable {V : Type}
 
